@@ -30,6 +30,10 @@ class Boom(Exception):
     pass
 
 
+class BoomBase(BaseException):
+    """A non-Exception BaseException (like KeyboardInterrupt / SystemExit / CancelledError)."""
+
+
 def _hooks_snapshot():
     import torch.nn.modules.module as M
     from torch.overrides import _get_current_function_mode_stack
@@ -67,7 +71,7 @@ class World:
         return getattr(self, name)
 
 
-def _inject(model, k):
+def _inject(model, k, exc=None):
     """Make the k-th module invocation (0-based, counted over all modules of the model) raise. Returns an undo function."""
     from optimum.quanto import QModuleMixin
 
@@ -83,7 +87,7 @@ def _inject(model, k):
             i = counter["n"]
             counter["n"] += 1
             if i == k:
-                raise Boom(f"injected at invocation {k}")
+                raise (exc or Boom)(f"injected at invocation {k}")
             return _orig(*a, **kw)
 
         m.__dict__[attr] = wrapper
@@ -118,6 +122,9 @@ def _events(w, tier):
         for name in ("A", "B", "F"):
             for k in range(nmax):
                 ev.append(f"fault:{name}:{k}")
+        # the same with an exception that is not a subclass of Exception (Ctrl-C during calibration)
+        for k in (0, 4) if w.stack else (1,):
+            ev.append(f"faultbase:A:{k}")
     return ev
 
 
@@ -154,14 +161,15 @@ def _apply(w, ev):
                     raise Boom("inside disable_extensions")
         except Boom:
             pass
-    elif ev.startswith("fault:"):
-        _, name, k = ev.split(":")
-        undo = _inject(w.model(name), int(k))
+    elif ev.startswith(("fault:", "faultbase:")):
+        kind, name, k = ev.split(":")
+        exc = BoomBase if kind == "faultbase" else Boom
+        undo = _inject(w.model(name), int(k), exc)
         raised = None
         try:
             with torch.no_grad():
                 w.model(name)(_batch("n", dt))
-        except Boom as e:
+        except (Boom, BoomBase) as e:
             raised = e
         finally:
             undo()
@@ -170,7 +178,7 @@ def _apply(w, ev):
             # the exception propagates out of every open `with Calibration()` block, innermost first
             while w.stack:
                 c, snap = w.stack.pop()
-                c.__exit__(Boom, raised, raised.__traceback__)
+                c.__exit__(type(raised), raised, raised.__traceback__)
     else:
         raise ValueError(ev)
     return w
@@ -356,12 +364,24 @@ def _purity_task(task, out):
     for wname in models.WQ:
         for aname in (None, "qint8"):
             fm = models.build_float("mlp", dtname)
-            params = [p for p in fm.parameters()]
-            pdata = [p.data for p in params]
+            params = [p for p in fm.parameters()]  # the Parameter objects themselves (a caller or a tied module may still hold them)
             kw = {"weights": num.qt(wname)}
             if aname:
                 kw["activations"] = num.qt(aname)
-            run(f"quantize(mlp,{wname},{aname})", pdata, lambda: quantize(fm, **kw), {"kind": "purity", "fn": "quantize"})
+            run(f"quantize(mlp,{wname},{aname})", params, lambda: quantize(fm, **kw), {"kind": "purity", "fn": "quantize"})
+            # weight tying: an Embedding (never quantized) shares its weight with a Linear head
+            emb = torch.nn.Embedding(12, 8).to(num.DTYPES[dtname])
+            head = torch.nn.Linear(8, 12, bias=False).to(num.DTYPES[dtname])
+            head.weight = emb.weight
+            tied = torch.nn.ModuleDict({"emb": emb, "head": head})
+            run(f"quantize(tied,{wname},{aname})", [emb.weight], lambda: quantize(tied, **kw), {"kind": "purity", "fn": "quantize_tied"})
+            try:
+                ok = tuple(tied["emb"].weight.shape) == (12, 8) and bool(torch.isfinite(tied["emb"](torch.tensor([1, 5]))).all())
+            except Exception:
+                ok = False
+            if not ok and not (only and only != [f"quantize(tied,{wname},{aname})"]):
+                out["violations"].append(violation(PID, dict(task, only=[f"quantize(tied,{wname},{aname})"]), {"kind": "purity", "fn": "quantize_tied", "sub": "source_modified"},
+                                                   f"source_modified: after quantize() of a model with tied weights the Embedding sharing its weight with the Linear head is broken"))
             qm = models.build_quantized("mlp", dtname, wname, aname)
             wts = [m.weight.data for _, m in models.qmodules(qm)] + [m.bias.data for _, m in models.qmodules(qm) if m.bias is not None]
             run(f"freeze(mlp,{wname},{aname})", wts, lambda: freeze(qm), {"kind": "purity", "fn": "freeze"})
